@@ -629,7 +629,11 @@ class SObj:
         return f"<SObj {getattr(self.cls, '__name__', self.cls)} {self.fields}>"
 
 
-class Opt:
+class EngineValue:
+    """marker: a value only the symbolic interpreter can handle (never passed to native code)."""
+
+
+class Opt(EngineValue):
     """`None | T` with symbolic None-ness: isnone is a z3 BoolRef, val the value when not None."""
 
     def __init__(self, isnone, val):
@@ -641,7 +645,7 @@ class Opt:
     __hash__ = None
 
 
-class Maybe:
+class Maybe(EngineValue):
     """A dict entry (or attribute) that exists only under a condition (merged `if`)."""
 
     def __init__(self, present, val):
@@ -655,7 +659,7 @@ class Maybe:
 
 def has_sym(v, _depth=0):
     """Does the value contain anything the native interpreter cannot handle?"""
-    if isinstance(v, (Sym, SObj, MutSet, Opt, Maybe)):
+    if isinstance(v, (Sym, SObj, MutSet, EngineValue)):
         return True
     if _depth > 6:
         return False
